@@ -961,7 +961,8 @@ def r15_5(ctx):
                     if rv2 and rv2["k"] == "binop" and rv2["op"] in ("Eq", "Ne"):
                         for x, y in ((rv2["a"], rv2["b"]), (rv2["b"], rv2["a"])):
                             if C.op_const(y) == "32_u8" and any(l.kind == "call" and l.bb == bb for l in C.trace(
-                                    al, x, transparent=lambda tt: C.is_transparent(tt) or T.item_preserving(C.callee_name(tt)))):
+                                    al, x, transparent=lambda tt: C.callee_name(tt) != nm and (
+                                        C.is_transparent(tt) or T.item_preserving(C.callee_name(tt))))):
                                 forms.add("spaces-of-prefix-length")
     want = {"same-prefix", "spaces-of-prefix-length", "prefix-without-trailing-whitespace"}
     if forms == want:
@@ -1672,3 +1673,232 @@ def _places_of(st):
         if o.get("k") in ("copy", "move"):
             out.append(o["pl"])
     return out
+
+
+# ------------------------------------------------------------------ R11.10: the candidate source names of get_txtpp_file
+# Same idea as R11.7, for the inverse direction: every candidate `get_txtpp_file` can return has exactly ONE dotted component more than
+# the name it was asked about (`txtpp` inserted before or after the last extension, or appended when there is none).  Abstract state per
+# PathBuf local: the set of possible component deltas, how many trailing extension components the name is KNOWN to have (`trailing`), or
+# that it is known to have none (`noext`); per OsString local: how many components the extension value has.  set_extension(x) with k
+# components: replaces the last component when one is known to exist (delta += k-1), appends when none exists (delta += k), and is
+# {replace, append} when unknown — which is exactly the imprecision a wrong construction introduces (`a.b.c` -> with_extension("") ->
+# with_extension("txtpp.c") may replace `.b`).
+
+def _candidate_deltas(prog, b):
+    p_self = 1
+    EXT = "std::path::Path::extension"
+    is_self = lambda op: any(l.kind == "param" and l.data == p_self for l in C.trace(b, op))
+    some_e = enum_edges(b, prog, "std::option::Option", lambda vs: vs == {"Some"},
+                        src_pred=lambda c: any(l.kind == "call" and C.callee_name(l.data) == EXT and is_self(l.data["args"][0]) for l in c.src))
+    none_e = enum_edges(b, prog, "std::option::Option", lambda vs: vs == {"None"},
+                        src_pred=lambda c: any(l.kind == "call" and C.callee_name(l.data) == EXT and is_self(l.data["args"][0]) for l in c.src))
+    in_some = (C.region(b, some_e) - C.region(b, none_e)) if some_e else set()
+    in_none = (C.region(b, none_e) - C.region(b, some_e)) if none_e else set()
+    results = []
+    COPY = ("<std::path::PathBuf as std::clone::Clone>::clone", "std::path::Path::to_path_buf", "<std::path::Path as std::borrow::ToOwned>::to_owned",
+            "std::borrow::ToOwned::to_owned")
+    VIEW = ("std::path::Path::as_os_str", "std::path::PathBuf::as_path", "<std::path::PathBuf as std::ops::Deref>::deref", "std::convert::AsRef::as_ref",
+            "std::ffi::OsString::as_os_str", "<std::ffi::OsString as std::ops::Deref>::deref", "std::ffi::OsStr::new", "std::borrow::Borrow::borrow")
+
+    def root(st, op):
+        """tracked local behind an operand (through refs / views), or None"""
+        pl = C.op_place(op)
+        seen = set()
+        while pl is not None and pl["l"] not in seen:
+            seen.add(pl["l"])
+            if pl["l"] in st and all(e["k"] == "deref" for e in pl["p"]):
+                return pl["l"]
+            ds = [r for r in b.defs().get(pl["l"], []) if r[0] in ("assign", "call")]
+            if len(ds) != 1:
+                return None
+            if ds[0][0] == "call":
+                t2 = ds[0][2]
+                if C.callee_name(t2) in VIEW and t2["args"]:
+                    pl = C.op_place(t2["args"][0])
+                    continue
+                return None
+            rv2 = ds[0][3]["rv"]
+            pl = rv2.get("pl") if rv2["k"] in ("ref", "copyforderef") else (C.op_place(rv2["op"]) if rv2["k"] in ("use", "cast") else None)
+        return None
+
+    def comps(st, op):
+        """number of dot-separated components of an extension operand, or None"""
+        r = root(st, op)
+        if r is not None and st[r][0] == "E":
+            return st[r][1]
+        lv = C.trace(b, op, transparent=lambda t: C.is_transparent(t) or C.callee_name(t) in VIEW)
+        vals = set()
+        for l in lv:
+            if l.kind == "const":
+                c_ = C.op_const(l.data) or ""
+                if len(c_) >= 2 and c_[0] == c_[-1] == '"':
+                    vals.add(0 if c_ == '""' else c_.count(".") + 1)
+                else:
+                    return None
+            elif l.kind == "call" and C.callee_name(l.data) == EXT:
+                vals.add(1)          # an extension is one component by definition
+            else:
+                return None
+        return vals.pop() if len(vals) == 1 else None
+
+    def self_state(bb):
+        return ("P", frozenset([0]), 1 if bb in in_some else 0, bb in in_none, True)
+
+    def refine(v, bb):
+        kind, d, tr, noext, pristine = v
+        if pristine and d == frozenset([0]):
+            if bb in in_some:
+                tr = max(tr, 1)
+            if bb in in_none:
+                noext = True
+        return (kind, d, tr, noext, pristine)
+
+    def apply_ext(v, k, bb):
+        kind, d, tr, noext, pristine = refine(v, bb)
+        if d is None or k is None:
+            return ("P", None, 0, False, False)
+        if k == 0:
+            if tr >= 1:
+                return ("P", frozenset(x - 1 for x in d), tr - 1, False, False)
+            if noext:
+                return ("P", d, 0, True, False)
+            return ("P", frozenset(x - 1 for x in d) | d, 0, False, False)
+        if tr >= 1:
+            return ("P", frozenset(x + k - 1 for x in d), tr - 1 + k, False, False)
+        if noext:
+            return ("P", frozenset(x + k for x in d), k, False, False)
+        return ("P", frozenset(x + k - 1 for x in d) | frozenset(x + k for x in d), k, False, False)
+
+    def step(bb, st):
+        st = dict(st)
+        blk = b.blocks[bb]
+        for s_ in blk["stmts"]:
+            if s_["k"] != "assign":
+                continue
+            rv = s_["rv"]
+            if rv["k"] == "aggregate" and rv["agg"]["k"] == "array":
+                # `vec![cand1, cand2]` (written through the box): a list of candidates to probe
+                for o in rv["ops"]:
+                    r = root(st, o)
+                    if r is not None and st[r][0] == "P":
+                        results.append((bb, st[r][1]))
+                continue
+            if s_["lhs"]["p"]:
+                continue
+            if rv["k"] == "use":
+                src = C.op_place(rv["op"])
+                if src is not None and not src["p"] and src["l"] in st:
+                    st[s_["lhs"]["l"]] = st[src["l"]]
+            elif rv["k"] == "aggregate" and rv["agg"].get("adt") == "std::option::Option" and rv["agg"].get("variant") == "Some" and rv["ops"]:
+                r = root(st, rv["ops"][0])
+                if r is not None and st[r][0] == "P":
+                    results.append((bb, st[r][1]))
+            elif rv["k"] == "aggregate" and rv["agg"]["k"] == "array":
+                # `vec![cand1, cand2]`: a list of candidates to probe
+                for o in rv["ops"]:
+                    r = root(st, o)
+                    if r is not None and st[r][0] == "P":
+                        results.append((bb, st[r][1]))
+        t = blk["term"]
+        if t["k"] != "call":
+            return st
+        nm = C.callee_name(t) or ""
+        dest = t["dest"]["l"]
+        a = t["args"]
+        if nm in COPY and a:
+            r = root(st, a[0])
+            if r is not None:
+                st[dest] = st[r]
+            elif is_self(a[0]):
+                st[dest] = self_state(bb)
+        elif nm == SET_EXT and len(a) == 2:
+            r = root(st, a[0])
+            if r is not None and st[r][0] == "P":
+                st[r] = apply_ext(st[r], comps(st, a[1]), bb)
+        elif nm == "std::path::Path::with_extension" and len(a) == 2:
+            r = root(st, a[0])
+            cur = st[r] if (r is not None and st[r][0] == "P") else (self_state(bb) if is_self(a[0]) else None)
+            if cur is not None:
+                st[dest] = apply_ext(cur, comps(st, a[1]), bb)
+        elif nm in ("std::ffi::OsStr::to_os_string", "<std::ffi::OsString as std::convert::From<&T>>::from", "<std::ffi::OsString as std::convert::From<T>>::from",
+                    "<std::ffi::OsStr as std::borrow::ToOwned>::to_owned", "<std::ffi::OsString as std::clone::Clone>::clone") or \
+                (nm.endswith("::from") and "OsString" in nm) or (nm in COPY and a and "OsStr" in (t.get("dest_ty") or "")):
+            st[dest] = ("E", comps(st, a[0]) if a else None, False)
+        elif nm in ("std::ffi::OsString::new", "std::ffi::OsString::with_capacity"):
+            st[dest] = ("E", 0, False)
+        elif nm == "std::ffi::OsString::push" and len(a) == 2:
+            r = root(st, a[0])
+            if r is not None and st[r][0] == "E":
+                _k, n, pend = st[r]
+                lv = C.trace(b, a[1], transparent=lambda t2: C.is_transparent(t2) or C.callee_name(t2) in VIEW)
+                if lv and all(l.kind == "const" and C.op_const(l.data) == '"."' for l in lv):
+                    st[r] = ("E", n, True)
+                else:
+                    k = comps(st, a[1])
+                    if n is None or k is None:
+                        st[r] = ("E", None, False)
+                    elif pend or n == 0:
+                        st[r] = ("E", n + k, False)
+                    else:
+                        st[r] = ("E", None, False)      # appended without a dot: glued onto the last component
+        elif nm == "std::vec::Vec::<T, A>::push" and len(a) == 2 and root(st, a[1]) is not None and st[root(st, a[1])][0] == "P":
+            results.append((bb, st[root(st, a[1])][1]))
+        elif nm in ("std::bool::<impl bool>::then_some",) and len(a) == 2:
+            r = root(st, a[1])
+            if r is not None and st[r][0] == "P":
+                results.append((bb, st[r][1]))
+        else:
+            for i, x in enumerate(a):
+                if i < len(t.get("arg_tys", [])) and t["arg_tys"][i]["ty"].startswith("&mut"):
+                    r = root(st, x)
+                    if r is not None:
+                        st[r] = ("P", None, 0, False, False) if st[r][0] == "P" else ("E", None, False)
+        return st
+
+    seen = set()
+    stack = [(0, {})]
+    while stack:
+        bb, st = stack.pop()
+        key = (bb, tuple(sorted(st.items())))
+        if key in seen or len(seen) > 20000:
+            continue
+        seen.add(key)
+        st2 = step(bb, st)
+        for (s2, lab) in b.raw_succs(bb):
+            if not b.blocks[s2]["cleanup"]:
+                stack.append((s2, st2))
+    return results
+
+
+@rule("C11", "R11.10", floor=1)
+def r11_10(ctx):
+    """every candidate source get_txtpp_file can return has exactly one dotted component more than the requested name (`txtpp` put before
+    or after its last extension, or appended): candidates built by replacing extensions are followed through set_extension /
+    with_extension with the component count of each extension value"""
+    b = body(ctx, "get_txtpp_file")
+    if not b:
+        return
+    res = _candidate_deltas(ctx.lib, b)
+    if not res:
+        ctx.unverified("no candidate construction through set_extension / with_extension found in get_txtpp_file", site=ctx.site(b, 0))
+        return
+    unknown = [bb for bb, d in res if d is None]
+    bad = [(bb, d) for bb, d in res if d is not None and d != frozenset([1])]
+    if bad:
+        bb, d = bad[0]
+        ctx.violation([b.name, "candidate-components", ",".join(str(x) for x in sorted(d))], "get_txtpp_file can return a candidate whose number of dot-separated "
+                      "components differs from the requested name's by %s (exactly +1 expected): replacing the extension of a name whose stem still contains a dot "
+                      "replaces that inner component (`a.b.c` -> `a.txtpp.c` instead of `a.b.txtpp.c`)" % sorted(d), site=ctx.site(b, bb))
+    elif unknown:
+        ctx.unverified("a candidate of get_txtpp_file is built in a way the component accounting does not follow", site=ctx.site(b, unknown[0]))
+    else:
+        ctx.ok("every candidate has exactly one component more than the requested name (%d path states)" % len(res), site=ctx.site(b, res[0][0]))
+
+
+@rule("C01", "R01.11", floor=6)
+def r01_11(ctx):
+    """README `run`: the COMMAND is the directive's argument lines joined with single spaces (none dropped, none added), handed to the
+    shell as one argument, and its stdout is the directive output (= C17 R17.2)"""
+    import rules_run
+    rules_run.r17_2(ctx)
+
